@@ -50,6 +50,7 @@ PrintArgs == IF ~Full THEN {<<Universe[1]>>, <<Universe[2]>>, <<Universe[3]>>}
                     <<Universe[3], Universe[9]>>, <<Universe[2], Universe[5]>>, <<Universe[7], Universe[8]>>})
 
 Configs == {[cs |-> c, term |-> t, width |-> 40, record |-> TRUE] : c \in CSs, t \in BOOLEAN}
+           \cup (IF Full THEN {[cs |-> "none", term |-> FALSE, width |-> 40, record |-> FALSE]} ELSE {})   \* exports refuse
 
 MaxN(a, b) == IF a > b THEN a ELSE b
 On == Len(hist) < MaxN(MCDepth, GenDepth)
